@@ -208,7 +208,8 @@ def body_ttp(tier, out):
         st = np.array([[1, 3, 1, 3, 1, 3], [2, 3, 1, 2, 0, 1]], np.int64)
         res = np.zeros(16, np.int64)
         try:
-            d["drive_errors"](cfg, days, 0, total, st, rounds, ub,
+            d["drive_errors"](cfg, days, 0, total, st, rounds,
+                              np.array([ub] * len(st), np.int64),
                               1 if corrupt else 0,
                               np.zeros(ub + 1, np.int64), res, 8,
                               np.zeros((5, 8), np.int64))
